@@ -30,6 +30,7 @@ def gen_and_run(tier, seed):
     rng.shuffle(b4)
     b4 = b4[:40000] if tier == "quick" else b4[:250000]
     cases += b4
+    cases += [dict(c, adv=gen.ADV_KINDS[i % len(gen.ADV_KINDS)]) for i, c in enumerate(cases[:nexh3]) if i % 5 == 0]
     obs = mc.run_impl(cases, PROP)
     hs = mc.random_histories(rng, 400 if tier == "quick" else 5000, 6 if tier == "quick" else 9,
                              12 if tier == "quick" else 40, mc.CLASSES, fault_ratio=0.0)
